@@ -104,17 +104,15 @@ func (c *Cache) Set(key string, value any) {
 // SetWithExpire sets value into c with key and expire with the given value.
 func (c *Cache) SetWithExpire(key string, value any, expire time.Duration) {
 	c.lock.Lock()
-	_, ok := c.data[key]
 	c.data[key] = value
 	c.lruCache.add(key)
 	c.lock.Unlock()
 
 	expiry := c.unstableExpiry.AroundDuration(expire)
-	if ok {
-		c.timingWheel.MoveTimer(key, expiry)
-	} else {
-		c.timingWheel.SetTimer(key, value, expiry)
-	}
+	// SetTimer also restarts the timer of a key that is already pending. MoveTimer must not be
+	// used for that: with a (jittered) expiry below the wheel interval of one second it runs
+	// the expiry callback at once and deletes the entry that was just set.
+	c.timingWheel.SetTimer(key, value, expiry)
 }
 
 // Take returns the item with the given key.
